@@ -3,6 +3,7 @@ package checks
 import (
 	"errors"
 	"fmt"
+	"github.com/lightninglabs/lightning-node-connect/mailbox"
 	"math/rand"
 	"net"
 	"os"
@@ -51,7 +52,7 @@ func runC05(c *mon.Case) {
 		wg.Add(1)
 		go func(i int) {
 			defer wg.Done()
-			r := c05Session(seeds[i], 75*time.Second)
+			r := c05Session(seeds[i], 180*time.Second)
 			if r.safety != "" {
 				c.Shard.Violate("stream|"+r.safetyKind, r.safety, r.rep)
 			}
@@ -63,7 +64,7 @@ func runC05(c *mon.Case) {
 				r2 := c05Session(seeds[i], 300*time.Second)
 				switch {
 				case r2.completed:
-					c.Shard.Inconc(fmt.Sprintf("session seed %d missed its 75 s deadline once but completed on the re-run (load)", seeds[i]))
+					c.Shard.Inconc(fmt.Sprintf("session seed %d missed its 180 s deadline once but completed on the re-run (load)", seeds[i]))
 				case r2.desync:
 					c.Shard.Violate("pairing-desync", fmt.Sprintf("after relay faults ceased the transfer neither completed nor failed visibly within 300 s (reproduced): the client completed the first handshake and moved to the key-derived rendezvous, the server did not complete it (act three lost or late) and stays on the passphrase rendezvous: %s", r2.progress), r2.rep)
 				case r2.quietTail >= 20*time.Second:
@@ -349,11 +350,16 @@ func c05Session(seed int64, deadline time.Duration) *c05Result {
 	// has not (it stays on the passphrase rendezvous): they never meet again.
 	res.desync = !res.completed && cl.CD.RemoteKey() != nil && s.CD.RemoteKey() == nil
 	if !res.completed && getenv("C05_DUMP") != "" {
-		if f, err := os.Create(fmt.Sprintf("%s.%d", getenv("C05_DUMP"), seed%1000)); err == nil {
-			_ = pprof.Lookup("goroutine").WriteTo(f, 1)
-			for _, e := range relay.Log() {
+		if f, err := os.Create(fmt.Sprintf("%s.%d.%d", getenv("C05_DUMP"), seed%1000, time.Now().UnixNano()%100000)); err == nil {
+			fmt.Fprintf(f, "profile %s events %+v\n", profile, m.EventsCopy())
+			lg := relay.Log()
+			if len(lg) > 150 {
+				lg = lg[len(lg)-150:]
+			}
+			for _, e := range lg {
 				fmt.Fprintln(f, e.T, e.Kind, e.Stream, e.Note)
 			}
+			_ = pprof.Lookup("goroutine").WriteTo(f, 1)
 			f.Close()
 		}
 	}
@@ -413,6 +419,92 @@ func TestC05Debug(t *testing.T) {
 	}
 	var seed int64
 	fmt.Sscan(s, &seed)
-	r := c05Session(seed, 60*time.Second)
-	fmt.Printf("completed=%v safety=%q desync=%v quiet=%v progress=%s\n", r.completed, r.safety, r.desync, r.quietTail, r.progress)
+	n := 1
+	if r := getenv("C05_REPEAT"); r != "" {
+		fmt.Sscan(r, &n)
+	}
+	var wg sync.WaitGroup
+	for i := 0; i < n; i++ {
+		wg.Add(1)
+		go func() {
+			defer wg.Done()
+			r := c05Session(seed, 60*time.Second)
+			fmt.Printf("completed=%v safety=%q desync=%v quiet=%v progress=%s\n", r.completed, r.safety, r.desync, r.quietTail, r.progress)
+		}()
+	}
+	wg.Wait()
+}
+
+// TestC05DeadPeerDebug: paired session, the client uploads; then the server
+// "dies": it reads nothing any more and everything it sends is lost. Prints how
+// long the client's connection takes to close.
+func TestC05DeadPeerDebug(t *testing.T) {
+	if getenv("C05_DEBUG") == "" {
+		t.Skip()
+	}
+	rng := rand.New(rand.NewSource(4242))
+	pass := eng.Entropy(rng)
+	relay := sim.NewRelay()
+	relay.KeepMsg = false
+	if c := getenv("C05_CAP"); c != "" {
+		fmt.Sscan(c, &relay.Cap)
+	}
+	s := eng.NewMboxParty(eng.NewKey(rng), nil, pass, []byte("auth"), 0, 2)
+	cl := eng.NewMboxParty(eng.NewKey(rng), nil, pass, nil, 0, 2)
+	sid, _ := cl.CD.SID()
+	c2s, s2c := sidHex(mailbox.GetSID(sid, false)), sidHex(mailbox.GetSID(sid, true))
+	var dead atomic.Bool
+	relay.Fault = func(op sim.RelayOp) sim.RelayAction {
+		if dead.Load() && op.Kind == "send" && op.Stream == s2c {
+			return sim.RelayAction{Drop: true}
+		}
+		return sim.RelayAction{}
+	}
+	m, err := eng.NewMboxSession(relay, s, cl)
+	if err != nil {
+		t.Fatal(err)
+	}
+	m.StartServer()
+	m.StartClient()
+	defer m.Stop()
+	var sc, cc net.Conn
+	for sc == nil || cc == nil {
+		select {
+		case sc = <-m.SConns:
+		case cc = <-m.CConns:
+		case <-time.After(40 * time.Second):
+			t.Fatal("no pairing")
+		}
+	}
+	go func() {
+		b := make([]byte, 65536)
+		for {
+			if _, err := sc.Read(b); err != nil {
+				return
+			}
+		}
+	}()
+	readDone := make(chan error, 1)
+	go func() { _, err := cc.Read(make([]byte, 64)); readDone <- err }()
+	upload := getenv("C05_UPLOAD") != ""
+	if upload {
+		go func() {
+			for i := 0; i < 4000; i++ {
+				if _, err := cc.Write(eng.StreamBytes('z', i*32768, 32768)); err != nil {
+					return
+				}
+			}
+		}()
+	}
+	time.Sleep(time.Second)
+	t0 := time.Now()
+	dead.Store(true)
+	relay.FreezeReads(c2s, true)
+	select {
+	case err := <-readDone:
+		fmt.Printf("dead peer (upload=%v): client read returned %v after %v\n", upload, err, time.Since(t0))
+	case <-time.After(180 * time.Second):
+		fmt.Printf("dead peer (upload=%v): client still open after %v\n", upload, time.Since(t0))
+		_ = pprof.Lookup("goroutine").WriteTo(os.Stdout, 1)
+	}
 }
